@@ -21,7 +21,7 @@ def impl_predicates(pid, lines, iobs):
         if not t:
             continue
         ob = iobs.get(i)
-        if t[0] in ("coll", "minterm", "const", "var", "apply", "unary") and ob and not ob.startswith("ERR"):
+        if t[0] in ("coll", "minterm", "const", "var", "apply", "unary", "reattach") and ob and not ob.startswith("ERR"):
             tb = _tab(ob)
             if tb is not None:
                 names[t[1]] = (tb, i)
